@@ -20,11 +20,10 @@ import (
 	"vh/vhlib"
 )
 
-// methods never exercised: the lock itself (promoted from an embedded RWMutex), (de)serialisation (D15 and friends are
-// other properties' business), accessors documented as exposing storage.
+// methods never exercised: the lock itself (promoted from an embedded RWMutex), accessors documented as exposing
+// storage. (De)serialisation methods ARE exercised (valid, invalid and empty documents, see docArg).
 var lockMethods = map[string]bool{"Lock": true, "Unlock": true, "RLock": true, "RUnlock": true, "TryLock": true, "TryRLock": true, "RLocker": true}
-var serialMethods = map[string]bool{"MarshalJSON": true, "UnmarshalJSON": true, "Marshal": true, "Unmarshal": true, "Load": true, "Export": true,
-	"ToJSON": true, "FromJSON": true}
+var marshalNames = []string{"MarshalJSON", "Marshal", "Export", "ToJSON"}
 var exposesMethods = map[string]bool{"ToMetaSlice": true, "ToMetaMap": true, "GetByRange": true}
 
 // results that alias the receiver's storage on the unrepaired tree (D9, D10: property C06): not compared
@@ -92,7 +91,7 @@ func genArg(t reflect.Type, r *vhlib.Rng, key *int) (reflect.Value, bool) {
 		return reflect.ValueOf(fmt.Sprintf("s%d", r.Intn(8))).Convert(t), true
 	case reflect.Slice:
 		if t.Elem().Kind() == reflect.Uint8 {
-			return reflect.Value{}, false
+			return reflect.ValueOf(docArg(r)).Convert(t), true
 		}
 		n := r.Range(1, 3) // never an empty batch (D18)
 		if key != nil {
@@ -218,9 +217,6 @@ func usableMethods(inst interface{}) (ok []meth, skipped map[string]string) {
 		case lockMethods[n]:
 			skipped[n] = "the lock itself"
 			continue
-		case serialMethods[n]:
-			skipped[n] = "(de)serialisation"
-			continue
 		case exposesMethods[n]:
 			skipped[n] = "documented as exposing storage"
 			continue
@@ -279,6 +275,12 @@ func argString(args []reflect.Value) string {
 	var p []string
 	for _, a := range args {
 		switch a.Kind() {
+		case reflect.Slice:
+			if a.Type().Elem().Kind() == reflect.Uint8 {
+				p = append(p, fmt.Sprintf("%q", clipStr(string(a.Bytes()), 60)))
+			} else {
+				p = append(p, fmt.Sprint(a.Interface()))
+			}
 		case reflect.Func:
 			p = append(p, "<func>")
 		case reflect.Ptr, reflect.Interface:
@@ -319,6 +321,12 @@ func encVal(v reflect.Value, sorted bool, depth int) []int64 {
 		}
 		return []int64{hashStr(v.String())}
 	case reflect.Slice:
+		if v.Type().Elem().Kind() == reflect.Uint8 { // a serialised document
+			if sorted {
+				return []int64{int64(v.Len())} // element order of a hash container is not an observable
+			}
+			return []int64{int64(v.Len()), hashStr(string(v.Bytes()))}
+		}
 		if v.Type().Elem().Kind() == reflect.Interface || depth > 2 {
 			return []int64{int64(v.Len())}
 		}
@@ -434,4 +442,94 @@ func tableTypeName(t reflect.Type) string {
 		p = p[i+1:]
 	}
 	return p + "." + n
+}
+
+// ---------------------------------------------------------------------------------------------------------
+// documents for the (de)serialisation methods
+
+// validDocs: documents produced by the type under test itself (its own Marshal/MarshalJSON/Export on fresh instances
+// of several sizes); set per spec by setDocs.
+var validDocs [][]byte
+
+var wrongDocs = []string{`["a","b"]`, `{"a":"b"}`, `[1,"x",3]`, `{"1":"x"}`, `{"x":{"Value":"v","Expire":"e"}}`, `[[1],[2]]`, `7`, `"s"`, `true`,
+	`{{{`, `]`, `nul`, `[1,2`, `{"1":`, "\x00\xff\xfe", `[1 2 3]`, `{1:2}`}
+var emptyDocs = []string{``, `null`, `[]`, `{}`, ` `}
+
+func setDocs(s *spec) {
+	validDocs = nil
+	for _, n := range []int{0, 1, 3, 6} {
+		inst := s.mk(n)
+		ms, _ := usableMethods(inst)
+		for _, name := range marshalNames {
+			m := findMeth(ms, name)
+			if m == nil || m.typ.NumIn() != 0 || m.typ.NumOut() == 0 || m.typ.Out(0).Kind() != reflect.Slice || m.typ.Out(0).Elem().Kind() != reflect.Uint8 {
+				continue
+			}
+			if res, blocked := invokeSeq(inst, *m, nil); !blocked && !res.panicked && len(res.out) > 0 {
+				validDocs = append(validDocs, append([]byte(nil), res.out[0].Bytes()...))
+			}
+			break
+		}
+	}
+}
+
+// docArg: half of the documents are valid; the others are truncated valid ones, documents of the wrong shape or
+// element type, garbage, or empty. Always a fresh byte slice.
+func docArg(r *vhlib.Rng) []byte {
+	pick := r.Intn(10)
+	switch {
+	case pick < 5 && len(validDocs) > 0:
+		return append([]byte(nil), validDocs[r.Intn(len(validDocs))]...)
+	case pick < 7 && len(validDocs) > 0:
+		d := validDocs[r.Intn(len(validDocs))]
+		if len(d) > 1 {
+			return append([]byte(nil), d[:1+r.Intn(len(d)-1)]...)
+		}
+		return []byte("[")
+	case pick < 9:
+		return []byte(wrongDocs[r.Intn(len(wrongDocs))])
+	}
+	return []byte(emptyDocs[r.Intn(len(emptyDocs))])
+}
+
+// ---------------------------------------------------------------------------------------------------------
+// sequential calls with a watchdog: a call that blocks in a run without any concurrency means the instance lock was
+// left held by an earlier call (typically on an error path)
+
+const seqTimeout = 4 * time.Second
+
+var lastFailed string // the most recent sequential call that returned an error or panicked (reset by seqReset)
+var lastFailedMeth string
+var onBlocked func(blockedMeth, args, failedMeth, failedCall string)
+
+func seqReset() { lastFailed, lastFailedMeth = "", "" }
+
+func failed(res callResult) bool {
+	if res.panicked {
+		return true
+	}
+	if n := len(res.out); n > 0 {
+		if e, ok := res.out[n-1].Interface().(error); ok && e != nil {
+			return true
+		}
+	}
+	return false
+}
+
+func invokeSeq(inst interface{}, m meth, args []reflect.Value) (callResult, bool) {
+	ch := make(chan callResult, 1)
+	go func() { ch <- invoke(inst, m, args) }()
+	select {
+	case res := <-ch:
+		if failed(res) {
+			lastFailedMeth = m.name
+			lastFailed = m.name + "(" + clipStr(argString(args), 80) + ")"
+		}
+		return res, false
+	case <-time.After(seqTimeout):
+		if onBlocked != nil {
+			onBlocked(m.name, clipStr(argString(args), 80), lastFailedMeth, lastFailed)
+		}
+		return callResult{panicked: true, pval: "blocked"}, true
+	}
 }
